@@ -19,6 +19,11 @@ claimed = {
          "Every single-coordinate (thorough: pair) failure of the handshake line plus silence-until-timeout, partial line, exit before output, EOF without newline and oversize line, x 72 client configurations; oracle: whenever Start returns an error after launch the runner's Kill had been invoked by then, a following Kill returns within 3 s and removes the plugin-dir* directory, nothing stays blocked.",
          "Trusts: scripted runner (RunnerFunc) models process exit / kill; real-process (Cmd) liveness is the E3 part's subject.",
          "DESIGN.md §3 C05"),
+ "C10": ("exploration",
+         "exhaustive bounded enumeration of plugin stderr/stdout byte sequences through the real Client under virtual time, against a reference line splitter and level mapper",
+         "All stderr sequences of <= 2 (thorough 3) lines over a 35-entry alphabet x 3 buffer sizes x final newline present/absent, and all stdout sequences of <= 2 (thorough 3) lines over 6 lengths around the 64 KiB scanner limit, fed through 64 KiB pipe models to the real logStderr / stdout scanner; oracle: bytes forwarded to ClientConfig.Stderr equal the lines in order, exactly one record per short line with the reference level/message/key-values, both writers complete (no back-pressure stall), host does not panic.",
+         "Trusts: the reference model (refStderr/refParseJSON); the pipe model; a host panic is observed as worker death and confirmed in a fresh worker.",
+         "DESIGN.md §3 C10"),
  "C19": ("model_checking",
          "exhaustive enumeration of call sequences against a reference model + deviation-bounded schedule exploration of concurrent calls on one real Client",
          "Sequential: all call sequences of length <= 3 (quick) / 5 (thorough) over 7 operations x 5 plugin behaviours, compared with a reference (launch count, address identity, client identity, no launch after Kill). Concurrent: all pairs (thorough: triples, 2x2) of operations under every schedule with <= 2/3 deviations. Two known findings (relaunch after a failed start) are keyed on 'after a start that failed post-launch'.",
